@@ -1,0 +1,26 @@
+//go:build verif
+
+// Package verifhook marks the durable steps of cache population for the verification harness in
+// /verif. With the `verif` build tag Point forwards the marker to a settable callback (the harness
+// uses it to snapshot the cache directory and to kill the process at a chosen marker).
+package verifhook
+
+import "sync/atomic"
+
+var hook atomic.Pointer[func(string)]
+
+// Set installs (or, with nil, removes) the callback that receives every marker.
+func Set(f func(name string)) {
+	if f == nil {
+		hook.Store(nil)
+		return
+	}
+	hook.Store(&f)
+}
+
+// Point forwards the marker to the installed callback, if any.
+func Point(name string) {
+	if f := hook.Load(); f != nil {
+		(*f)(name)
+	}
+}
